@@ -155,6 +155,12 @@ func cellToValue(cell interface{}, id octosql.TypeID) (V, bool) {
 				return vFloat(f), true
 			}
 		}
+		// Since the formatter fix (non-finite floats are printed as the JSON strings "NaN", "+Inf",
+		// "-Inf") a Float-typed column may carry exactly these three strings.
+		if s, isStr := cell.(string); isStr && (s == "NaN" || s == "+Inf" || s == "-Inf") {
+			f, _ := strconv.ParseFloat(s, 64)
+			return vFloat(f), true
+		}
 		if s, isStr := cell.(string); isStr && strings.HasPrefix(s, "__float:") {
 			if f, err := strconv.ParseFloat(strings.TrimPrefix(s, "__float:"), 64); err == nil {
 				return vFloat(f), true
